@@ -135,6 +135,8 @@ struct Rewriter<'a, 'b> {
     rename_self: bool,
     rng_idents: HashSet<String>,
     ref_idents: HashSet<String>,
+    /// locals declared `let x: Vec<INT> = ..` (owned vector of a primitive Copy integer): `for i in x` binds i by value
+    owned_int_vecs: HashSet<String>,
 }
 
 fn norm_ws(s: &str) -> String {
@@ -143,7 +145,7 @@ fn norm_ws(s: &str) -> String {
 
 impl<'a, 'b> Rewriter<'a, 'b> {
     fn new(fx: &'b FileCtx<'a>) -> Self {
-        Rewriter { fx, edits: vec![], errors: vec![], loops: vec![], log: vec![], seq: 0, tmp: 0, in_trait_impl: false, rename_self: false, rng_idents: HashSet::new(), ref_idents: HashSet::new() }
+        Rewriter { fx, edits: vec![], errors: vec![], loops: vec![], log: vec![], seq: 0, tmp: 0, in_trait_impl: false, rename_self: false, rng_idents: HashSet::new(), ref_idents: HashSet::new(), owned_int_vecs: HashSet::new() }
     }
     fn edit(&mut self, lo: usize, hi: usize, text: String, rule: &'static str) {
         self.seq += 1;
@@ -610,8 +612,11 @@ impl<'a, 'b> Rewriter<'a, 'b> {
             if plain && d <= 1 {
                 let n = self.loops.len();
                 let m = self.new_loop(hdr.clone(), line);
-                let elem = if d == 0 { format!("let {} = &it__{}[ik__{}];", p, n, n) } else { format!("let {} = it__{}[ik__{}];", p, n, n) };
-                if d == 0 {
+                // `for i in v` with v a local `Vec<INT>` consumes the vector: i is an INT, not a reference
+                let by_value = d == 0 && self.iter_receiver(&f.expr).is_none()
+                    && matches!(e, Expr::Path(pp) if pp.path.get_ident().map(|i| self.owned_int_vecs.contains(&i.to_string())).unwrap_or(false));
+                let elem = if d == 0 && !by_value { format!("let {} = &it__{}[ik__{}];", p, n, n) } else { format!("let {} = it__{}[ik__{}];", p, n, n) };
+                if d == 0 && !by_value {
                     self.ref_idents.insert(p.clone());
                 }
                 let txt = format!(
@@ -670,6 +675,14 @@ impl<'a, 'b, 'ast> Visit<'ast> for Rewriter<'a, 'b> {
             }
         }
         if let Stmt::Local(l) = s {
+            if let Pat::Type(pt) = &l.pat {
+                if let Pat::Ident(pi) = &*pt.pat {
+                    let ty = norm_ws(self.fx.text(pt.ty.span())).replace(' ', "");
+                    if matches!(ty.as_str(), "Vec<usize>" | "Vec<u8>" | "Vec<u16>" | "Vec<u32>" | "Vec<u64>" | "Vec<i32>" | "Vec<i64>") {
+                        self.owned_int_vecs.insert(pi.ident.to_string());
+                    }
+                }
+            }
             if let (Pat::Struct(ps), Some(init)) = (&l.pat, &l.init) {
                 let is_ref = match &*init.expr {
                     Expr::Path(p) => p.path.get_ident().map(|i| self.ref_idents.contains(&i.to_string())).unwrap_or(false),
@@ -788,6 +801,37 @@ impl<'a, 'b, 'ast> Visit<'ast> for Rewriter<'a, 'b> {
                 if name == "try_into" && mc.args.is_empty() {
                     let (lo, hi) = self.fx.rng(mc.method.span());
                     self.edit(lo, hi, "try_into_arr".to_string(), "R12");
+                }
+                // R16: (A..B).collect()  ->  range_collect(A, B)   (the listed integers in order; the target type comes from the binding)
+                if name == "collect" && mc.args.is_empty() {
+                    if let Expr::Paren(pe) = &*mc.receiver {
+                        if let Expr::Range(r) = &*pe.expr {
+                            if let (Some(a), Some(b), RangeLimits::HalfOpen(_)) = (&r.start, &r.end, &r.limits) {
+                                let (lo, hi) = self.fx.rng(mc.span());
+                                let txt = format!("range_collect({}, {})", self.fx.text(a.span()), self.fx.text(b.span()));
+                                self.edit(lo, hi, txt, "R16");
+                                return;
+                            }
+                        }
+                    }
+                }
+                // R17: X.and_then(|v| Some(v)) / X.and_then(|v| { return Some(v); })  ->  X   (right identity of Option)
+                if name == "and_then" && mc.args.len() == 1 {
+                    if let Some(c) = self.closure_of(&mc.args[0]) {
+                        if c.inputs.len() == 1 {
+                            if let Some((pv, 0)) = self.simple_pat(&c.inputs[0]) {
+                                let body = norm_ws(self.fx.text(c.body.span())).replace(' ', "");
+                                let ident = format!("Some({})", pv);
+                                if body == ident || body == format!("{{returnSome({});}}", pv) || body == format!("{{Some({})}}", pv) || body == format!("{{returnSome({})}}", pv) {
+                                    let (_, rhi) = self.fx.rng(mc.receiver.span());
+                                    let (_, hi) = self.fx.rng(mc.span());
+                                    self.edit(rhi, hi, String::new(), "R17");
+                                    self.visit_expr(&mc.receiver);
+                                    return;
+                                }
+                            }
+                        }
+                    }
                 }
                 if matches!(name.as_str(), "for_each" | "any" | "find" | "collect" | "map" | "filter" | "zip" | "enumerate" | "chain" | "fold")
                     && !matches!(&*mc.receiver, Expr::Path(_) | Expr::Field(_))
